@@ -157,6 +157,10 @@ type world struct {
 	vsig     string
 	vmsg     string
 	vstep    int
+	dsig     string // deferred mismatch: reported when the behaviour shows no consequence of it
+	dmsg     string
+	dstep    int
+	prevObs  *obs
 }
 
 // violate keeps the first mismatch of the behaviour; it is reported when the run turns out not to be
@@ -491,8 +495,13 @@ func replayOnce(b vlib.Behaviour, cfg config, res *vlib.Result, salt int64) bool
 	}
 	defer w.close()
 	defer func() {
-		if !w.fp && w.vsig != "" {
+		if w.fp {
+			return
+		}
+		if w.vsig != "" {
 			res.Violate(w.bid, w.vstep, w.vsig, "%s", w.vmsg)
+		} else if w.dsig != "" {
+			res.Violate(w.bid, w.dstep, w.dsig, "%s", w.dmsg)
 		}
 	}()
 	if cfg.Sampling {
@@ -505,6 +514,7 @@ func replayOnce(b vlib.Behaviour, cfg config, res *vlib.Result, salt int64) bool
 	}
 	for i := 1; i < len(b.States); i++ {
 		w.step = i
+		w.prevObs = before
 		prev, st := b.States[i-1], b.States[i]
 		ev := vlib.Map(st, "last")
 		op := vlib.Str(ev, "op")
@@ -513,7 +523,7 @@ func replayOnce(b vlib.Behaviour, cfg config, res *vlib.Result, salt int64) bool
 		}
 		res.Steps++
 		res.Inc("op_" + op)
-		if !w.apply(prev, st, ev) {
+		if !w.apply(prev, st, ev, traces) {
 			if w.fp {
 				return true
 			}
@@ -607,7 +617,7 @@ func (w *world) describe(s *session) string {
 	return ""
 }
 
-func (w *world) apply(prev, st vlib.State, ev map[string]any) (ok bool) {
+func (w *world) apply(prev, st vlib.State, ev map[string]any, traces []string) (ok bool) {
 	defer func() {
 		if r := recover(); r != nil {
 			w.violate("panic-in-"+vlib.Str(ev, "op"), "panic: %v", r)
@@ -709,16 +719,18 @@ func (w *world) apply(prev, st vlib.State, ev map[string]any) (ok bool) {
 		if !w.expect(s, "sidx", op) {
 			return false
 		}
-		if want := len(vlib.List(ev, "dropped")) > 0; s.sidx.keep != want {
-			sig := "sampler-drop-not-applied"
+		if want := len(vlib.List(ev, "dropped")) > 0; s.sidx.keep != want && w.dsig == "" {
+			// the only thing visible here is whether the core merge hands a drop predicate to the index merge;
+			// the behaviour goes on so that the consequence (partial trace, orphaned entries, ...) names the report
+			w.dsig = "sampler-drop-not-applied"
 			if vlib.Bool(ev, "failed") {
-				sig = "sampler-error-not-fail-open"
+				w.dsig = "sampler-error-not-fail-open"
 			} else if s.sidx.keep {
-				sig = "dropped-although-fragment-outside"
+				w.dsig = "dropped-although-fragment-outside"
 			}
-			w.violate(sig, "merge %s after decisions %s: the real merge passes a drop predicate to the index merge = %v, the specification drops %v",
+			w.dmsg = fmt.Sprintf("merge %s after decisions %s: the real merge passes a drop predicate to the index merge = %v, the specification drops %v",
 				s.name, vlib.Canon(ev["dec"]), s.sidx.keep, vlib.List(ev, "dropped"))
-			return false
+			w.dstep = w.step
 		}
 	case "revalidate":
 		s := w.sess(ev)
@@ -731,6 +743,7 @@ func (w *world) apply(prev, st vlib.State, ev map[string]any) (ok bool) {
 			}
 		} else {
 			if !w.expect(s, "sidx", op) {
+				w.published(s, prev, ev, traces)
 				return false
 			}
 			s.rejected = append(s.rejected, trace.VerifIntro{PartID: attempt, Path: filepath.Join(w.X.Root(), fmt.Sprintf("%016x", attempt)), SidxPath: w.X.VerifSidxPartPath(attempt)})
@@ -747,6 +760,7 @@ func (w *world) apply(prev, st vlib.State, ev map[string]any) (ok bool) {
 			w.realID[fmt.Sprintf("X/%d", vlib.Int(ev, "part"))] = in.PartID
 		} else {
 			if !w.expect(s, "sidx", op) {
+				w.published(s, prev, ev, traces)
 				return false
 			}
 			s.rejected = append(s.rejected, in)
@@ -773,6 +787,42 @@ func (w *world) apply(prev, st vlib.State, ev map[string]any) (ok bool) {
 		return false
 	}
 	return true
+}
+
+// published: the real merge went on to publish where the specification rejects the attempt.  Let it publish and
+// evaluate the property on the real observations, so that the report names the consequence (if there is one)
+// instead of the divergence.
+func (w *world) published(s *session, prev vlib.State, ev map[string]any, traces []string) {
+	if w.vsig == "" || !strings.HasPrefix(w.vsig, "merge-pipeline-diverged") {
+		return
+	}
+	before := w.prevObs
+	if s.intro != nil {
+		var err error
+		if before, err = w.observe(traces); err != nil {
+			return
+		}
+		s.intro = nil
+		s.vm.Forward()
+		if e, ok := w.next(s); !ok || e.kind != "done" {
+			return
+		}
+	} else if !s.done || before == nil {
+		return
+	}
+	after, err := w.observe(traces)
+	if err != nil {
+		return
+	}
+	div, dmsg, dstep := w.vsig, w.vmsg, w.vstep
+	w.failed, w.vsig = false, ""
+	w.property(prev, prev, map[string]any{"op": "introduce", "m": s.name, "published": true}, before, after, traces)
+	if w.vsig == "" {
+		w.vsig, w.vmsg, w.vstep = div, dmsg, dstep
+	} else {
+		w.vmsg += " [the specification rejects this attempt: " + dmsg + "]"
+	}
+	w.failed = true
 }
 
 // eligible recomputes the spec's Eligible set of a session in state `prev` (pc = "decide").
